@@ -1,6 +1,7 @@
 import Gaftools.Props.C15Hist
 import Gaftools.Props.TieA
 import Gaftools.Props.C15Bicc
+import Gaftools.Props.C15Bicc2
 #print axioms Gaftools.C15.findComp_exact
 #print axioms Gaftools.C15.components_partition
 #print axioms Gaftools.C15.dfs_once
@@ -17,3 +18,7 @@ import Gaftools.Props.C15Bicc
 #print axioms Gaftools.C15.biccs_aps_sound
 #print axioms Gaftools.C15.biccs_aps_complete
 #print axioms Gaftools.C15.biccs_aps_exact
+#print axioms Gaftools.C15.biccs_covers_links
+#print axioms Gaftools.C15.biccs_comps_share_one
+#print axioms Gaftools.C15.biccs_comp_biconnected
+#print axioms Gaftools.C15.biccExact
